@@ -21,7 +21,7 @@ ALLOC = {
       [X('d1-rethrow', 'base', 'depth=1', 'alpha=' + ALL, 'halpha=' + ALL9, 'ppalpha=012', 'chain=1')]
       + [X('d1-alloc-%s-%s' % (o, a), 'base', 'objs=' + o, 'alloc=' + a, 'depth=1', 'alpha=' + ALL, 'halpha=' + ALL9, 'ppalpha=012', 'chain=1')
          for o in VAL for a in ('stack', 'static', 'heap')]
-      + [X('d1-alloc-struct-mix2', 'base', 'objs=struct', 'alloc=mix2', 'depth=1', 'alpha=' + ALL, 'halpha=' + ALL9, 'ppalpha=' + ALL, 'chain=1', 'fresh=1'),
+      + [X('d1-alloc-struct-mix2', 'base', 'objs=struct', 'alloc=mix2', 'depth=1', 'alpha=' + ALL, 'halpha=' + ALL9, 'ppalpha=' + ALL, 'chain=1'),
          X('d1-alloc-string-mix3', 'base', 'objs=string', 'alloc=mix3', 'depth=1', 'alpha=' + ALL, 'halpha=' + ALL9, 'ppalpha=012', 'chain=1'),
          X('d1-alloc-int-mix2', 'base', 'objs=int', 'alloc=mix2', 'depth=1', 'alpha=' + ALL, 'halpha=' + ALL9, 'ppalpha=012', 'chain=1'),
          X('d1-alloc-cmptry-stack', 'base', 'objs=cmptry', 'alloc=stack', 'depth=1', 'alpha=' + ALL, 'halpha=' + ALL9, 'ppalpha=012', 'chain=1'),
@@ -40,26 +40,28 @@ ALLOC = {
          X('deep-alloc-asan', 'asan', 'mode=deep', 'objs=struct', 'alloc=stack')]),
   'thorough': (
       [X('d1-rethrow', 'base', 'depth=1', 'alpha=' + ALL, 'halpha=' + ALL9, 'ppalpha=' + ALL, 'chain=1', 'fresh=1')]
-      + S('d2-rethrow', 'base', 2, 'depth=2', 'alpha=' + ALL, 'halpha=' + ALL9, 'ppalpha=0')
-      + [X('d1-alloc-%s-%s' % (o, a), 'base', 'objs=' + o, 'alloc=' + a, 'depth=1', 'alpha=' + ALL, 'halpha=' + ALL9, 'ppalpha=' + ALL, 'chain=1', 'fresh=1')
-         for o in VAL + ['cmptry'] for a in ('stack', 'static', 'heap', 'mix1', 'mix2', 'mix3')]
+      + S('d2-rethrow', 'base', 2, 'depth=2', 'alpha=0124568', 'halpha=01245689', 'ppalpha=0')
+      # depth 1: every class pinned and the other two rotations (mix1 is what d1-val-* / d1-cmptry run)
+      + [X('d1-alloc-%s-%s' % (o, a), 'base', 'objs=' + o, 'alloc=' + a, 'depth=1', 'alpha=' + ALL, 'halpha=' + ALL9, 'ppalpha=' + ALL, 'chain=1', *(['fresh=1'] if a == 'stack' else []))
+         for o in VAL + ['cmptry'] for a in ('stack', 'mix2')]
+      + [X('d1-alloc-%s-%s' % (o, a), 'base', 'objs=' + o, 'alloc=' + a, 'depth=1', 'alpha=' + ALL, 'halpha=' + ALL9, 'ppalpha=012', 'chain=1')
+         for o in VAL + ['cmptry'] for a in ('static', 'heap', 'mix3')]
       + [X('d1-alloc-%s-%s' % (o, a), 'base', 'objs=' + o, 'alloc=' + a, 'depth=1', 'alpha=' + ALL, 'halpha=' + ALL9, 'ppalpha=012', 'chain=1')
          for o in MIX for a in ('stack', 'mix2', 'mix3')]
-      + [i for a in ('stack', 'mix2', 'mix3') for i in S('d2-alloc-struct-' + a, 'base', 2, 'objs=struct', 'alloc=' + a, 'depth=2', 'alpha=' + ALL, 'halpha=' + ALL9, 'ppalpha=0')]
-      + S('d2-alloc-string-stack', 'base', 2, 'objs=string', 'alloc=stack', 'depth=2', 'alpha=' + ALL, 'halpha=' + ALL9, 'ppalpha=0')
-      + S('d2-alloc-int-stack', 'base', 2, 'objs=int', 'alloc=stack', 'depth=2', 'alpha=' + ALL, 'halpha=' + ALL9, 'ppalpha=0')
-      + [X('d2-alloc-string-static', 'base', 'objs=string', 'alloc=static', 'depth=2', 'alpha=0124568', 'halpha=01245689', 'ppalpha=0'),
-         X('d2-alloc-chain', 'base', 'objs=struct', 'alloc=stack', 'depth=2', 'alpha=0128', 'halpha=01289', 'ppalpha=01', 'chain=1')]
-      + S('d3-alloc-stack', 'base', 4, 'objs=struct', 'alloc=stack', 'depth=3', 'alpha=012', 'halpha=0129', 'ppalpha=0')
-      + S('d3-alloc-mix2', 'base', 2, 'objs=int', 'alloc=mix2', 'depth=3', 'alpha=012', 'halpha=019', 'ppalpha=0')
+      + S('d2-alloc-struct-stack', 'base', 2, 'objs=struct', 'alloc=stack', 'depth=2', 'alpha=' + ALL, 'halpha=' + ALL9, 'ppalpha=0')
+      + [X('d2-alloc-%s-%s' % (o, a), 'base', 'objs=' + o, 'alloc=' + a, 'depth=2', 'alpha=0124568', 'halpha=01245689', 'ppalpha=0')
+         for o, a in (('struct', 'mix2'), ('struct', 'mix3'), ('string', 'stack'), ('int', 'stack'), ('string', 'static'))]
+      + [X('d2-alloc-chain', 'base', 'objs=struct', 'alloc=stack', 'depth=2', 'alpha=0128', 'halpha=01289', 'ppalpha=01', 'chain=1')]
+      + S('d3-alloc-stack', 'base', 2, 'objs=struct', 'alloc=stack', 'depth=3', 'alpha=012', 'halpha=019', 'ppalpha=0')
+      + [X('d3-alloc-mix2', 'base', 'objs=int', 'alloc=mix2', 'depth=3', 'alpha=01', 'halpha=019', 'ppalpha=0')]
       + S('seq-alloc', 'base', 2, 'objs=struct', 'alloc=mix2', 'kind=seq', 'alpha=' + ALL, 'halpha=' + ALL9, 'ppalpha=0')
-      + S('seqt-alloc', 'base', 2, 'objs=string', 'alloc=stack', 'kind=seqt', 'alpha=0128', 'halpha=01289', 'ppalpha=0')
+      + [X('seqt-alloc', 'base', 'objs=string', 'alloc=stack', 'kind=seqt', 'alpha=012', 'halpha=0129', 'ppalpha=0')]
       + [i for o in VAL for i in S('d1-alloc-fork-' + o, 'base', 2, 'objs=' + o, 'alloc=stack', 'depth=1', 'alpha=' + ALL, 'halpha=' + ALL9, 'ppalpha=012', 'main=0', 'fork=1')]
       + [X('d1-alloc-msg-stack', 'base', 'objs=string', 'alloc=stack', 'msg=mix', 'depth=1', 'alpha=' + ALL, 'halpha=' + ALL9, 'ppalpha=' + ALL, 'chain=1')]
       + [X('deep-alloc-%s-%s' % (o, a), 'base', 'mode=deep', 'objs=' + o, 'alloc=' + a) for o in VAL for a in ('stack', 'static', 'heap', 'mix2')]
       + [X('d1-alloc-%s-asan' % o, 'asan', 'objs=' + o, 'alloc=stack', 'depth=1', 'alpha=' + ALL, 'halpha=' + ALL9, 'ppalpha=012', 'chain=1') for o in VAL]
       + [X('d1-alloc-static-asan', 'asan', 'objs=string', 'alloc=static', 'depth=1', 'alpha=' + ALL, 'halpha=' + ALL9, 'ppalpha=012', 'chain=1'),
-         X('d2-alloc-asan', 'asan', 'objs=struct', 'alloc=mix2', 'depth=2', 'alpha=012458', 'halpha=0124589', 'ppalpha=0'),
+         X('d2-alloc-asan', 'asan', 'objs=struct', 'alloc=mix2', 'depth=2', 'alpha=01248', 'halpha=012489', 'ppalpha=0'),
          X('d1-alloc-fork-asan', 'asan', 'objs=int', 'alloc=stack', 'depth=1', 'alpha=' + ALL, 'halpha=' + ALL9, 'ppalpha=0', 'main=0', 'fork=1'),
          X('deep-alloc-asan', 'asan', 'mode=deep', 'objs=struct', 'alloc=stack'),
          X('deep-alloc-string-asan', 'asan', 'mode=deep', 'objs=string', 'alloc=mix3')]),
@@ -89,7 +91,8 @@ CHECK = {
   'id': 'C07',
   'level': 'model_checking',
   'rule': ('program-tree enumeration: every assignment of the statement slots (nop, throw A/B/C, call of a function that itself '
-           'contains a try/catch which handles / lets escape / re-throws / completes, call of a plain thrower) and filter slots '
+           'contains a try/catch which handles / lets escape / re-throws / completes, call of a thrower that receives the object to throw as its '
+           'argument; in handler slots of the halpha= instances also: throw(e) of the object the handler was given) and filter slots '
            '(catch-all, {A}, {B}, {A,B}; filters are vars bound at run time, N is never thrown) of try/catch templates of nesting '
            'depth 1..3 (inner construct in the body or in the handler, written lexically in the same function or reached through a '
            'call), of two sibling constructs in sequence, and of two siblings inside an enclosing try, is executed through the real '
@@ -103,6 +106,15 @@ CHECK = {
            'objs=struct|string|int instances VALUE objects (a user struct whose Cmp ignores a payload field, heap Strings, heap Ints) '
            'caught through DISTINCT filter objects that are eq() to them: every handler entry records the identity of the bound object '
            '(pointer equality with the thrown object, payload/value intact), so a handler bound to the filter object is a violation. '
+           'Allocation class of the thrown value objects (alloc=): stack = built with $(Struct, ...) / $S / $I in the frame of the function that runs the program '
+           '(it encloses the sentinel and every try block, so the object is alive in the handler of its own block, in enclosing handlers after a non-matching inner '
+           'block, in a handler that re-throws it and in the callee it was handed to), static = static storage with an AllocStatic header, heap = new_raw; '
+           'mix1 (the default of EVERY value-object instance: struct / string / int / mixed / cmptry / cmpthrow / msg / deep) = A stack, B static, C heap, mix2 and mix3 the two '
+           'rotations, stack|static|heap = all three objects in that class. Two oracles at every handler that is offered the object (sentinel included): identity '
+           '(the bound pointer is the thrown pointer; an equal object that is not the thrown one is reported as handler-bound-to-a-copy) and mutation (the handler writes '
+           'its ordinal into the object it was given - payload field of a struct, val pointer of a String moved to another buffer with the same text, +1000 by assign() '
+           'on an Int seen through the owner\'s pointer and taken off again - and when the program has ended the owner of the objects reads each thrown object through its '
+           'own pointer: it must carry the mark of the last handler the reference binds to it, 0 if none). '
            'In the objs=mixed1|2|3 instances A, B, C have three different types (String / Type / struct instance / Int in rotation) and every filter has '
            'three entries of several types with the matching entry first, middle or last; non-matching entries have another type than the thrown '
            'object or the same type and another value, including traps (a String spelling the name of a thrown Type, an Int / struct carrying the '
@@ -119,8 +131,8 @@ CHECK = {
            'Deep nesting (mode=deep): recursion with D try blocks open at once, D in {1,2,3,17,100,1000,MAX-2,MAX-1,MAX} with MAX = '
            'EXCEPTION_MAX_DEPTH taken from the library source (MAX+1 aborts by design and is not run), non-matching filters at every level '
            'except a target (outermost/middle/innermost/nobody; typed or catch-all), A or B thrown at the bottom, optionally re-thrown by the '
-           'target handler to level 0 or to nobody; each case in a forked child; judged: exactly the target handler(s) run and bind the thrown '
-           'object, len(current(Exception)) before/inside/in the handler/after every level, exit status and diagnostic, and an ordinary '
+           'target handler to level 0 or to nobody, or the target handler re-throws the object it was given (to a level-0 filter listing it, or to nobody); each case in a forked child, the stack-class objects living in the frame D levels above the throw; judged: exactly the target handler(s) run and bind the thrown '
+           'object and leave their mark in the thrower\'s object, len(current(Exception)) before/inside/in the handler/after every level, exit status and diagnostic, and an ordinary '
            'program run afterwards. '
            'states = distinct programs; transitions = judged runs (programs + chained pairs + '
            'fresh-thread runs + forked runs); traces_validated = executions of a program body on the real macros; '
@@ -132,19 +144,27 @@ CHECK = {
               'pre/post fixed (3.8M), chaining over the {nop,A,B} space; depth 3: {nop,A,B} in 8 slots x 64 filter triples x 4 shapes x 4 '
               'realisations (6.7M); sibling sequences 1.07M; siblings inside a try 4.2M; ASan+UBSan: depth 1 full (with chaining and forks on a '
               'shard), depth 2 and 3 and sequences on smaller alphabets; value-object mode (struct/String/Int thrown, distinct equal filters): '
-              'depth 1 full x3 kinds with chaining, 2916 forked, depth 2 1.05M (struct) + 200k (String), sequences 200k, ASan depth 1 + depth 2; deep nesting: 270 cases up to 2048 open try blocks x {types, struct values, mixed types, ASan}; mixed-type objects and filters: depth 1 full x3 rotations with chaining, forks, depth 2 1.05M + 2x200k, sequences, ASan; message arguments whose Show uses try/catch/throw: depth 1 (each Show kind and mixed, types/struct/mixed objects, chaining, forks), depth 2 262k, deep nesting, ASan'),
+              'depth 1 full x3 kinds with chaining, 2916 forked, depth 2 1.05M (struct) + 200k (String), sequences 200k, ASan depth 1 + depth 2; deep nesting: 426 cases up to 2048 open try blocks x {types, struct values, mixed types, ASan}; mixed-type objects and filters: depth 1 full x3 rotations with chaining, forks, depth 2 1.05M + 2x200k, sequences, ASan; message arguments whose Show uses try/catch/throw: depth 1 (each Show kind and mixed, types/struct/mixed objects, chaining, forks), depth 2 262k, deep nesting, ASan; '
+              'allocation classes and re-throw (27 instances, 1.2M programs, 1.9M judged runs): depth 1 with the 10-statement handler alphabet for struct/String/Int x {all stack, all static, all heap} + rotations mix2/mix3 + cmptry, mixed and msg objects on the stack (3240 programs each with pre/post in {nop,A,B}, 29160 for struct mix2; chaining), '
+              '3240 forked children with String objects on the stack, depth 2 734k (struct, all stack) + 2x115k, sequences 72k, deep nesting x3 classes, ASan depth 1 / depth 2 / deep; every other value-object instance runs alloc=mix1'),
     'thorough': ('depth 1 as quick; depth 2: 9-statement alphabet, pre/post in {nop,A,B} (34M), chaining over {nop,A,B,K0} with pre/post (1.05M x residual '
                  'states), 262k depth-2 programs without sentinel in forked children; depth 3: {nop,A,B,K0,K1} in 8 slots x 64 filter triples x 4 shapes x 4 '
                  'realisations (400M), {nop,A,B} with pre/post (60M); sequences 8.5M; siblings inside a try 25M; ASan+UBSan instances of each family; '
                  'value-object mode: depth 1 full x3 kinds (chaining, fresh threads, forks), depth 2 34M (struct) + 3.8M (String) + 3.8M (Int) + chaining, '
-                 'depth 3 67M, sequences 8.5M, siblings inside a try 4.2M, ASan depth 1 + depth 2; deep nesting as quick plus all three mixed rotations; mixed-type objects and filters x3 rotations: depth 1 full (chaining, fresh threads, forks), depth 2 7.6M each, depth 3 6.7M each, chaining, sequences, siblings inside a try, ASan; message arguments whose Show uses try/catch/throw: depth 1 full x5 object modes + each Show kind, depth 2 15M + 3x250k + 3.8M (struct), depth 3 6.7M, sequences, forks, deep nesting, ASan'),
+                 'depth 3 67M, sequences 8.5M, siblings inside a try 4.2M, ASan depth 1 + depth 2; deep nesting as quick plus all three mixed rotations; mixed-type objects and filters x3 rotations: depth 1 full (chaining, fresh threads, forks), depth 2 7.6M each, depth 3 6.7M each, chaining, sequences, siblings inside a try, ASan; message arguments whose Show uses try/catch/throw: depth 1 full x5 object modes + each Show kind, depth 2 15M + 3x250k + 3.8M (struct), depth 3 6.7M, sequences, forks, deep nesting, ASan; '
+                 'allocation classes and re-throw (73 instances, 25M programs): depth 1 full 10-statement handler alphabet x {struct,String,Int,cmptry} x {stack,static,heap,mix2,mix3} (mix1 = the d1-val / d1-cmptry instances, which have the re-throw statement too) '
+                 '+ 3 mixed rotations x {stack,mix2,mix3}, chaining, fresh threads for the stack class, 10080 forked children; depth 2: 4.9M (struct, all stack, full alphabet) + 5x1.5M + types 1.5M + chaining; depth 3 6.7M (struct, stack) + 1.4M (Int, mix2); '
+                 'sequences 1.2M, siblings inside a try 1M; deep nesting x {struct,String,Int} x {stack,static,heap,mix2}; ASan depth 1 x4, depth 2, forks, deep x2'),
   },
   'assumptions': [
     'exception kinds are singleton type objects (CelloEmpty; names are prefix-related on purpose: Net, NetErr, NetError, NetErrorTimeout, NetErrorTimeoutRetry), '
     'value objects (a user struct whose Cmp ignores a payload field, heap Strings, heap Ints), or a mixture of those types in one program with filters whose three entries have several types '
     '(in contract since a873edc: an entry of another type than the thrown object simply does not match)',
     'enumerated programs nest <= 5 deep; the deep-nesting family reaches exactly EXCEPTION_MAX_DEPTH open blocks (more is out of contract: the library aborts by design); catch filters never list the same object twice (Tuple iteration cannot handle that: known finding D16 of C11); one thread at a time',
-    'locals of the templates are not modified inside a try body and read afterwards (setjmp rules); traces live in a shared global buffer',
+    'locals of the templates are not modified inside a try body and read afterwards (setjmp rules); traces live in a shared global buffer; the stack-class exception objects ARE written '
+    'inside try bodies / handlers and read afterwards, which is safe because they are compound literals whose address has escaped (memory, never a register copy)',
+    'a thrown object must outlive the handlers that are offered it: stack-class objects are built in a frame that encloses the whole program (a $() object of a frame that the throw unwinds is out of contract and never built); '
+    'static-class objects are made with the public header_init(); handlers write only fields that eq() ignores (or restore the value before anything can compare it), so marking never changes which filter matches',
     'the pending object of the record (white-box field, exception_object() is declared but not defined) is used only to classify residual states, never in a verdict',
     'gcc/clang, glibc setjmp/longjmp and the sanitizer run-times are trusted',
   ],
@@ -159,9 +179,9 @@ CHECK = {
       + S('seqt', 'base', 4, 'kind=seqt', 'alpha=0124', 'ppalpha=0')
       + S('d3', 'base', 4, 'depth=3', 'alpha=012', 'ppalpha=0')
       # value objects thrown, caught through distinct-but-equal filter objects (identity + payload of the bound object)
-      + [X('d1-val-struct', 'base', 'objs=struct', 'depth=1', 'alpha=' + ALL, 'ppalpha=' + ALL, 'chain=1', 'fresh=1'),
-         X('d1-val-string', 'base', 'objs=string', 'depth=1', 'alpha=' + ALL, 'ppalpha=' + ALL, 'chain=1'),
-         X('d1-val-int', 'base', 'objs=int', 'depth=1', 'alpha=' + ALL, 'ppalpha=' + ALL, 'chain=1'),
+      + [X('d1-val-struct', 'base', 'objs=struct', 'depth=1', 'alpha=' + ALL, 'halpha=' + ALL9, 'ppalpha=' + ALL, 'chain=1', 'fresh=1'),
+         X('d1-val-string', 'base', 'objs=string', 'depth=1', 'alpha=' + ALL, 'halpha=' + ALL9, 'ppalpha=' + ALL, 'chain=1'),
+         X('d1-val-int', 'base', 'objs=int', 'depth=1', 'alpha=' + ALL, 'halpha=' + ALL9, 'ppalpha=' + ALL, 'chain=1'),
          X('d1-val-fork', 'base', 'objs=struct', 'depth=1', 'alpha=' + ALL, 'ppalpha=012', 'main=0', 'fork=1'),
          X('d2-val-struct', 'base', 'objs=struct', 'depth=2', 'alpha=0124', 'ppalpha=0124'),
          X('d2-val-string', 'base', 'objs=string', 'depth=2', 'alpha=01245', 'ppalpha=0'),
@@ -194,7 +214,7 @@ CHECK = {
       + [X('d2-pct%d' % k, 'base', 'pct=%d' % k, 'depth=2', 'alpha=0125', 'ppalpha=0') for k in (1, 2, 3)]
       + [X('d2-pct-asan', 'asan', 'pct=3', 'depth=2', 'alpha=012', 'ppalpha=0')]
       # value objects whose Cmp function opens try blocks of its own, thrown and listed in filters
-      + [X('d1-cmptry', 'base', 'objs=cmptry', 'depth=1', 'alpha=' + ALL, 'ppalpha=' + ALL, 'chain=1'),
+      + [X('d1-cmptry', 'base', 'objs=cmptry', 'depth=1', 'alpha=' + ALL, 'halpha=' + ALL9, 'ppalpha=' + ALL, 'chain=1'),
          X('d1-cmptry-msg', 'base', 'objs=cmptry', 'msg=mix', 'depth=1', 'alpha=' + ALL, 'ppalpha=012'),
          X('d1-cmptry-fork', 'base', 'objs=cmptry', 'depth=1', 'alpha=0128', 'ppalpha=012', 'main=0', 'fork=1'),
          X('d2-cmptry', 'base', 'objs=cmptry', 'depth=2', 'alpha=0124', 'ppalpha=01'),
@@ -226,9 +246,9 @@ CHECK = {
       + S('d3-pp', 'base', 8, 'depth=3', 'alpha=012', 'ppalpha=012')
       + S('seq', 'base', 2, 'kind=seq', 'alpha=' + ALL, 'ppalpha=012')
       + S('seqt', 'base', 8, 'kind=seqt', 'alpha=01245', 'ppalpha=0')
-      + [X('d1-val-struct', 'base', 'objs=struct', 'depth=1', 'alpha=' + ALL, 'ppalpha=' + ALL, 'chain=1', 'fresh=1'),
-         X('d1-val-string', 'base', 'objs=string', 'depth=1', 'alpha=' + ALL, 'ppalpha=' + ALL, 'chain=1', 'fresh=1'),
-         X('d1-val-int', 'base', 'objs=int', 'depth=1', 'alpha=' + ALL, 'ppalpha=' + ALL, 'chain=1', 'fresh=1')]
+      + [X('d1-val-struct', 'base', 'objs=struct', 'depth=1', 'alpha=' + ALL, 'halpha=' + ALL9, 'ppalpha=' + ALL, 'chain=1', 'fresh=1'),
+         X('d1-val-string', 'base', 'objs=string', 'depth=1', 'alpha=' + ALL, 'halpha=' + ALL9, 'ppalpha=' + ALL, 'chain=1', 'fresh=1'),
+         X('d1-val-int', 'base', 'objs=int', 'depth=1', 'alpha=' + ALL, 'halpha=' + ALL9, 'ppalpha=' + ALL, 'chain=1', 'fresh=1')]
       + S('d1-val-fork', 'base', 4, 'objs=struct', 'depth=1', 'alpha=' + ALL, 'ppalpha=' + ALL, 'main=0', 'fork=1')
       + S('d1-val-fork-string', 'base', 2, 'objs=string', 'depth=1', 'alpha=' + ALL, 'ppalpha=012', 'main=0', 'fork=1')
       + S('d2-val-struct', 'base', 8, 'objs=struct', 'depth=2', 'alpha=' + ALL, 'ppalpha=012')
@@ -271,7 +291,7 @@ CHECK = {
       + [i for k in (1, 2, 3) for i in S('d3-pct%d' % k, 'base', 2, 'pct=%d' % k, 'depth=3', 'alpha=012', 'ppalpha=0', 'dyns=lex')]
       + [X('d2-pct-asan', 'asan', 'pct=3', 'depth=2', 'alpha=0124', 'ppalpha=0')]
       # value objects whose Cmp function opens try blocks of its own, thrown and listed in filters
-      + [X('d1-cmptry', 'base', 'objs=cmptry', 'depth=1', 'alpha=' + ALL, 'ppalpha=' + ALL, 'chain=1', 'fresh=1'),
+      + [X('d1-cmptry', 'base', 'objs=cmptry', 'depth=1', 'alpha=' + ALL, 'halpha=' + ALL9, 'ppalpha=' + ALL, 'chain=1', 'fresh=1'),
          X('d1-cmptry-msg', 'base', 'objs=cmptry', 'msg=mix', 'depth=1', 'alpha=' + ALL, 'ppalpha=' + ALL, 'chain=1')]
       + S('d1-cmptry-fork', 'base', 2, 'objs=cmptry', 'depth=1', 'alpha=' + ALL, 'ppalpha=012', 'main=0', 'fork=1')
       + S('d2-cmptry', 'base', 4, 'objs=cmptry', 'depth=2', 'alpha=' + ALL, 'ppalpha=01')
